@@ -123,6 +123,16 @@ func (e *Engine) park(why string, ready func() bool) {
 	g.why = why
 	e.runq = append(e.runq, g)
 	next := e.pickNext()
+	for next == nil && len(e.pendingTimers) > 0 {
+		// nobody can run: let time pass until the next timer fires
+		t := e.pendingTimers[0]
+		e.pendingTimers = e.pendingTimers[1:]
+		e.chanSnapshot(t)
+		if len(t.buf) < t.cap {
+			t.buf = append(t.buf, e.timeZero())
+		}
+		next = e.pickNext()
+	}
 	if next == nil {
 		e.deadlock()
 	}
